@@ -51,6 +51,10 @@ type templateChecker struct {
 	forVars  []string
 	usedKeys []string
 
+	// forLetMark[i] is len(letVars) at the point the loop of forVars[i] was
+	// entered: a {let} from there on is inside the loop and shadows its variable.
+	forLetMark []int
+
 	// letUseStart[i] is len(usedKeys) at the point letVars[i] was declared: only
 	// keys used from there on refer to that {let}; an earlier use of the same
 	// name is a use of the @param (or outer {let}) it shadows.
@@ -62,7 +66,7 @@ func newTemplateChecker(reg template.Registry, tpl template.Template) *templateC
 	for _, param := range tpl.Doc.Params {
 		paramNames = append(paramNames, param.Name)
 	}
-	return &templateChecker{reg, paramNames, nil, nil, nil, nil}
+	return &templateChecker{reg, paramNames, nil, nil, nil, nil, nil}
 }
 
 func (tc *templateChecker) checkTemplate(node ast.Node) {
@@ -89,8 +93,10 @@ func (tc *templateChecker) checkTemplate(node ast.Node) {
 		tc.checkLoopVar(node.Var)
 		tc.checkTemplate(node.List)
 		tc.forVars = append(tc.forVars, node.Var)
+		tc.forLetMark = append(tc.forLetMark, len(tc.letVars))
 		tc.checkTemplate(node.Body)
 		tc.forVars = tc.forVars[:len(tc.forVars)-1]
+		tc.forLetMark = tc.forLetMark[:len(tc.forVars)]
 		if node.IfEmpty != nil {
 			tc.checkTemplate(node.IfEmpty)
 		}
@@ -195,6 +201,7 @@ func (tc *templateChecker) recurse(parent ast.ParentNode) {
 		tc.checkTemplate(child)
 	}
 	tc.forVars = tc.forVars[:initialForVars]
+	tc.forLetMark = tc.forLetMark[:initialForVars]
 
 	// quick return if there were no {let}s
 	if initialLetVars == len(tc.letVars) {
@@ -243,14 +250,35 @@ func (tc *templateChecker) usesLetFrom(first int, key string, use int) bool {
 }
 
 func (tc *templateChecker) visitKey(key string) {
-	// record that this key was used in the template.
-	tc.usedKeys = append(tc.usedKeys, key)
+	// record that this key was used in the template - unless an enclosing loop
+	// binds it: that is a use of the loop variable, not of a param or {let} of
+	// the same name outside the loop.
+	if !tc.boundByLoop(key) {
+		tc.usedKeys = append(tc.usedKeys, key)
+	}
 
 	// check that the key was provided by a @param or {let}
 	if !tc.checkKey(key) {
 		panic(fmt.Errorf("data ref %q not found. params: %v, let variables: %v",
 			key, tc.params, tc.letVars))
 	}
+}
+
+// boundByLoop reports whether the innermost binding of key is the variable of
+// an enclosing loop (a {let} of that name inside the loop shadows it).
+func (tc *templateChecker) boundByLoop(key string) bool {
+	for i := len(tc.forVars) - 1; i >= 0; i-- {
+		if tc.forVars[i] != key {
+			continue
+		}
+		for j := tc.forLetMark[i]; j < len(tc.letVars); j++ {
+			if tc.letVars[j] == key {
+				return false
+			}
+		}
+		return true
+	}
+	return false
 }
 
 // checkKey returns true if the given key exists as a param or {let} variable.
